@@ -197,6 +197,8 @@ def build(case):
         multi = True
 
     twins = {}
+    extra = {}
+    case["_extra"] = extra
 
     def tbl(i):
         """The source object a field is attached to: the source itself, or (twin) an equal object built independently."""
@@ -235,6 +237,15 @@ def build(case):
             q = q.where(fb == fa)
             exp.append((a, "FOREIGN", "where"))
         q = q.groupby(F(0, "groupby"), F(pick(), "groupby")).having(fn("Count")(F(pick(), "having")) > 1).orderby(F(0, "orderby"), F(pick(), "orderby"))
+        # a select alias that is also the name of a column of a source: ORDER BY <source>.<name> means the column
+        same = c.col()
+        sp = pick()
+        q = q.select(fn("Sum")(F(0, "function")).as_(same)).orderby(r["Field"](same, table=tbl(sp)))
+        extra["orderby_same_name"] = (same, "S%d" % sp)
+        # COUNT(<source>.*) keeps its source
+        cs = pick()
+        q = q.select(fn("Count")(r["Star"](tbl(cs))).as_("cnt_star"))
+        extra["count_star"] = "S%d" % cs
     elif kind == "update":
         tgt, tgt2 = c.col(), c.col()
         q = q.set(r["Field"](tgt, table=tbl(0)), F(pick(), "set-value")).set(tgt2, 5)
@@ -414,6 +425,36 @@ def run_case(case, mon):
     for i, t in enumerate(toks):
         if t.kind == "IDENT":
             pos.setdefault(t.value, []).append(i)
+    ex = case.get("_extra") or {}
+    if "orderby_same_name" in ex:
+        name, who = ex["orderby_same_name"]
+        ob = [i for i, t in enumerate(toks) if t.kind == "WORD" and t.value == "ORDER"]
+        occ = [i for i in pos.get(name, []) if ob and i > ob[-1]]
+        want = names[who] if (multi or always[who]) else None
+        mon.count("references_checked")
+        if not occ or qualifier_of(toks, occ[-1]) != want:
+            mon.violation("alias-instead-of-column:orderby:%s" % case["second"], "ORDER BY names column %r of source %s (a select item has the same alias): written with qualifier %r, expected %r: %r" % (
+                name, who, qualifier_of(toks, occ[-1]) if occ else "<missing>", want, sql[:300]))
+            return
+        pos.pop(name, None)
+    if "count_star" in ex:
+        who = ex["count_star"]
+        want = names[who] if (multi or always[who]) else None
+        got = "<missing>"
+        for i, t in enumerate(toks):
+            if t.kind == "WORD" and t.value == "COUNT" and i + 2 < len(toks) and toks[i + 1].text == "(":
+                j = i + 2
+                if toks[j].text == "*":
+                    got = None
+                elif toks[j].kind == "IDENT" and j + 2 < len(toks) and toks[j + 1].text == "." and toks[j + 2].text == "*":
+                    got = toks[j].value
+                else:
+                    continue
+                break
+        mon.count("references_checked")
+        if got != want:
+            mon.violation("star-source:count:%s" % case["second"], "COUNT(<source %s>.*) is written with qualifier %r, expected %r: %r" % (who, got, want, sql[:300]))
+            return
     for inner_col in ("so_ord", "so_str"):
         for i in pos.get(inner_col, []):
             mon.count("references_checked")
